@@ -30,7 +30,7 @@ CLAIMED = {
          "content of the harness-owned BESS server (pdrLookup, farLookup, appQERLookup, sessionQERLookup) with the image the reference specification computes from the live sessions' current rules "
          "(TablesAreImage: nothing missing, nothing else present), and checks UnknownOrUnassociatedRejected, RejectedWritesNothing and StartClearsLookupModules. "
          "Listed known finding F-QER-RELABEL is tolerated through named slack only for sessions whose history triggers it.",
-         "Randomised histories inside the generators' envelope (DESIGN A.1); kill points are between script steps; packet-level Classify=Denote is argued compositionally (field-wise image) rather than sampled. " + TRUST,
+         "Randomised histories inside the generators' envelope (DESIGN A.1); kill points are between script steps and, half of the time, inside a request (the datapath server kills the agent at the K-th command it receives for the request); packet-level Classify=Denote is argued compositionally (field-wise image) rather than sampled. " + TRUST,
          "5 C03"),
  "C09": ("TLA+ R-spec BessImage (QerValuesOK in BigNat arithmetic, SoundSessQer) validated by TLC on the QoS entries the real agent programs; systematic enumeration of QER-list shapes",
          "TLC judges every appQERLookup / sessionQERLookup entry recorded after each accepted request of the real agent: gate as signalled, pir = MBR x 125 and cir = max(GBR x 125, 1) for GBR <= MBR, "
@@ -129,7 +129,7 @@ CLAIMED = {
          "(interfaces, sessions_uplink / sessions_downlink keys and buffer / tunnel-peer action, terminations key and drop / forward action with TEID, QFI and traffic class, one applications entry per distinct filter and one tunnel_peers "
          "entry per distinct GTP peer present iff used, meter cells bounded by the live QERs) and InterfacesThroughout.",
          "Inside the envelope of DESIGN 11.4 (one UE address and one downlink forwarding state per session, distinct application filters per direction, at most one QFI-carrying QER per PDR, closed gates only on that QER), checked as a structural invariant; "
-         "applications priority and meter rates are not part of the image (C16 / not stated); histories are sampled. " + TRUST,
+         "applications priority and meter rates are not part of the image (C16 / C09); kill points are between steps and, half of the time, at the K-th Write RPC of a request; histories are sampled. " + TRUST,
          "5 C04"),
  "C15": ("TLA+ R-spec Up4Image (identifier discipline: exclusive cells, nothing free while an entry uses it, no duplicates in pool queues) judged by TLC on switch state + guarded pool snapshot of the real agent under injected P4Runtime write failures",
          "The harness' P4Runtime server fails chosen writes (whole RPC with a plain gRPC status, or one update of a batch with a per-update status; five status codes). For session shapes drawn from the seed and every request kind "
@@ -137,7 +137,7 @@ CLAIMED = {
          "session of another association; then random multi-fault histories and a burst of sessions that cycles the pools, all next to a crowd of live sessions; one shard per six keeps 200-400 sessions live and aims faults at meter writes "
          "so that a cell released into the wrong pool meets a live holder. After every step TLC evaluates CounterCellsExclusive, MeterCellsExclusive, NotFreeWhileInUse (counter, app-meter, session-meter, tunnel-peer and application IDs used by "
          "switch entries are not free in the plug-in's pools), NoIdTwiceInPool, PeerIdsInUseStayAllocated and FailedWriteMeansRejection.",
-         "The pools are read through the guarded snapshot hook (IDs not free, duplicates in queues); a leaked identifier (neither free nor used) is not a violation of the statement and is not flagged; positions k are exhaustive per shape, shapes are sampled. " + TRUST,
+         "Design level: RefCounted.tla (the reference-counted tunnel peers / applications as coded after the repairs, every write may fail) is model-checked on its complete graph, with the original release order as negative control. The pools are read through the guarded snapshot hook (IDs not free, duplicates in queues); a leaked identifier (neither free nor used) is not a violation of the statement and is not flagged; positions k are exhaustive per shape, shapes are sampled. " + TRUST,
          "5 C15"),
  "C16": ("TLA+ R-spec P4Valid (conformance of a write to the P4Info) judged by TLC on every update the harness' P4Runtime server received from the real agent; regeneration and byte comparison of the compiled-in constants",
          "Every update of every Write RPC (tables, meters, counters; INSERT / MODIFY / DELETE, also the start-up clearing and the rollback writes) is recorded as sent - ids and byte strings - and TLC evaluates P4Valid!WriteValid against the "
